@@ -57,21 +57,24 @@ type Exec struct {
 	depth  int
 	objN   int
 	// results
-	pending    [][]Decision
-	reached    map[string]bool
-	observes   []Observation
-	symMapOrd  bool
-	solverVCs  int
-	syntVCs    int
-	nontriv    bool
-	held       map[*Obj]bool // mutexes held (sequential mode)
-	funcs      map[string]bool
-	env        *Env
-	frames     []*Frame
-	stack      []*ssa.Function
-	curCallPos string
-	alloc      int64
-	maxSteps   int
+	pending         [][]Decision
+	reached         map[string]bool
+	observes        []Observation
+	symMapOrd       bool
+	solverVCs       int
+	syntVCs         int
+	nontriv         bool
+	held            map[*Obj]bool // mutexes held (sequential mode)
+	funcs           map[string]bool
+	env             *Env
+	frames          []*Frame
+	stack           []*ssa.Function
+	curCallPos      string
+	alloc           int64
+	maxSteps        int
+	overrides       map[string]*FuncV
+	uncheckedAssume bool
+	inOverride      bool
 }
 
 type Observation struct {
@@ -388,6 +391,14 @@ func (e *Exec) assume(c *Term) {
 		e.addPC(c)
 		return
 	}
+	if c.Hard {
+		// expensive arithmetic: defer the feasibility check to the next reach point (one query
+		// for the whole batch of assumptions instead of one each)
+		e.addPC(c)
+		e.model = nil
+		e.uncheckedAssume = true
+		return
+	}
 	r, m := e.sat(c, true)
 	if r == Unsat {
 		panic(pathEnd{kind: "vacuous"})
@@ -448,4 +459,22 @@ func (e *Exec) stackString() string {
 		s += " < " + e.stack[i].String()
 	}
 	return s
+}
+
+// settleAssumptions checks that the path condition is still satisfiable after assumptions whose
+// feasibility check was deferred.
+func (e *Exec) settleAssumptions() {
+	if !e.uncheckedAssume {
+		return
+	}
+	e.uncheckedAssume = false
+	r, m := e.sat(e.tb.T, true)
+	switch r {
+	case Unsat:
+		panic(pathEnd{kind: "vacuous"})
+	case Sat:
+		e.model = m
+	default:
+		e.w.noteInconclusive("solver unknown on the feasibility of deferred assumptions")
+	}
 }
